@@ -122,7 +122,13 @@ def _c17_viol(res):
     return v
 
 
+def _c09_viol(res):
+    return [dict(stage="builder", id=r["id"], what=[list(b)[:6] for b in r["bad"]][:4], kind="builder")
+            for r in res["builder"]["verdicts"] if r["bad"]]
+
+
 PROPS = {
+    "C09": dict(stages=["builder"], viol=_c09_viol),
     "C17": dict(stages=["determinism"], viol=_c17_viol),
     "C18": dict(stages=["regen"], viol=_c18_viol),
     "C16": dict(stages=["pipeline"], viol=_c16_viol),
